@@ -161,8 +161,8 @@ pub fn plan(id: &str) -> Option<Plan> {
             assumptions: vec![BASE_ASSUMPTIONS[1], BASE_ASSUMPTIONS[2], "Miri's scheduler/weak-memory model and the OS scheduler produce only a sample of the interleavings of the atomic steps"],
             floor: 20,
             engines: vec![
-                Engine { name: "stress", salt: 1, quick: 16, thorough: 64, serial: false, run: Box::new(|s, t| c08::stress(s, t.pick(400, 4000))) },
-                Engine { name: "miri", salt: 2, quick: 4, thorough: 16, serial: false, run: Box::new(|s, t| miri::run("C08", s, 1, Some(t.pick(16, 128) as u32), 0.1)) },
+                Engine { name: "stress", salt: 1, quick: 16, thorough: 48, serial: false, run: Box::new(|s, t| c08::stress(s, t.pick(400, 1500))) },
+                Engine { name: "miri", salt: 2, quick: 4, thorough: 16, serial: false, run: Box::new(|s, t| miri::run("C08", s, 1, Some(t.pick(16, 48) as u32), 0.1)) },
             ],
             extra: None,
         },
